@@ -32,6 +32,16 @@ EXTRA = [
     ('specification', '# id: p1\n# title: "T 1"\nglobally: no a\n\n# description: "d"\nafter b: some c {x > 0} within 100 ms'),
 ]
 
+# every function applied to every kind of argument expression (the grammar takes an argument like an operand: whatever is
+# not an atom needs its own parentheses, also in print); those the type checker rejects simply do not take part
+FUN_ARGS = ['(x > 0)', '(a and b)', '(not done)', '(a or not b)', '(p implies q)', '(p iff q)', '(x = y)', '(x in {1, 2})', '(x in [0 to y]!)',
+            '(forall i in xs: @i > 0)', '(x - y)', '(x * y + 1)', '(- x)', '(x ** 2)', '{x, 1}', '[0 to x]', 'xs[i + 1]', 'm.f', 'abs(x - 1)', '(@A.n + 1)',
+            '(len(xs) > 0)', '(not (a and b))', '(- x ** 2)', 'True', '"s"', '1']
+EXTRA += [('expression', '%s(%s)' % (f, a)) for f in ('bool', 'int', 'float', 'str', 'abs', 'len', 'max', 'sum', 'sqrt') for a in FUN_ARGS]
+EXTRA += [('predicate', '{ %s(%s) = %s }' % (f, a, r)) for f, r in (('int', '1'), ('str', '"True"'), ('float', 'z')) for a in FUN_ARGS[:10]]
+EXTRA += [('property', 'globally: no a {bool((x > 0)) and int((not b)) = 0} within 1 s'), ('predicate', '{ xs[int((x > 0))] > 0 }'),
+          ('expression', 'x in {int((a and b)), 2}'), ('expression', 'x in [0 to int((y > 1))]')]
+
 
 def roundtrip(entry, text):
     ev = {'text0': text, 'entry': entry, 'out2': 'na', 'str1': ['na', ''], 'str2': ['na', ''],
